@@ -177,7 +177,8 @@ EndOK(ev, specOK, metaOK) ==
   /\ (Has(ev, "encok") => ev.encok = ev.ok)
   /\ (Has(ev, "nildst") => ev.nildst = ev.ok)
   /\ (Has(ev, "logdst") => ev.logdst = ev.ok)          \* a DestinationLogger with no destination behind it
-  /\ (Has(ev, "vecdst") => ev.vecdst = ev.ok)          \* a Renderer drawing through a real raster/vec.Rasterizer
+  \* a Renderer drawing through a real raster/vec.Rasterizer (a panic on that route is judged on its own, below)
+  /\ (Has(ev, "vecdst") /\ ev.vecpanic = "" => ev.vecdst = ev.ok)
 
 TVEnd ==
   /\ Trace[l].ev = "end" /\ ~skip
@@ -189,6 +190,7 @@ TVEnd ==
         /\ skip' = TRUE /\ nloose' = nloose + 1
         /\ UNCHANGED << srcLine, st, nOut, h, li, nbad >>
      ELSE IF ~EndOK(ev, r.out.k = "end", m.ok) THEN Bad("outcome differs", << r.out, m.ok >>)
+     ELSE IF Has(ev, "vecpanic") /\ ev.vecpanic # "" THEN Bad("panic while rendering through raster/vec", ev.vecpanic)
      ELSE IF r.out.k = "err" /\ ~CutsInside(st.pos, Len(B) + 2) THEN Bad("prefix (after error)", << st.pos, nOut, h >>)
      ELSE IF r.out.k = "end" /\ Lines # << >> /\ li # Len(Lines) THEN Bad("listing has extra lines", << li, Len(Lines) >>)
      ELSE /\ st' = r.st
